@@ -31,7 +31,7 @@ inductive Stat where
   | do_ (b : Block) (l : Loc)
   | while_ (c : Exp) (b : Block) (l : Loc)
   | repeat_ (b : Block) (c : Exp) (l : Loc)
-  | if_ (conds : List Exp) (blocks : List Block) (l : Loc)
+  | if_ (conds : List Exp) (blocks : List Block) (hasElse : Bool) (l : Loc)   -- hasElse: the last cond is the `true` standing for a plain else
   | fornum (v : Bytes) (vl : Loc) (i lim step : Exp) (b : Block) (l : Loc)
   | forin (names : List (Bytes × Loc)) (exps : List Exp) (b : Block) (l : Loc)
   | assign (vars exps : List Exp) (l : Loc)
